@@ -173,6 +173,9 @@ def _parse_common(text: str, **options: Any) -> datetime | date | time:
     # Grabbing hh:mm:ss
     hour = int(m.group("hour"))
 
+    if not m.group("minute"):
+        raise ParserError("Invalid datetime string")
+
     minute = int(m.group("minute"))
 
     second = int(m.group("second")) if m.group("second") else 0
